@@ -6,7 +6,7 @@
    behaviour of strconv.  The model of /repo instantiates them with
    Token.int32_lit and the harness-supplied float oracle. *)
 From AL Require Import Expr.Parser Expr.Grammar Expr.ParserProofs.
-From AL Require Import Expr.Lexer Expr.LexerSpec Expr.LexerProofs Expr.ParseSrc Expr.ParseSrcProofs Expr.ParseLazy.
+From AL Require Import Expr.Lexer Expr.LexerSpec Expr.LexerProofs Expr.ParseSrc Expr.ParseSrcProofs Expr.ParseLazy Expr.LexWs.
 
 (* parser level, over token lists *)
 Theorem C04_parse_sound : forall int_lit float_ok ts e,
@@ -126,3 +126,13 @@ Theorem C04_parse_lazy_eq : forall plus int_lit float_ok src,
   parse_lazy plus int_lit float_ok src = parse_src plus int_lit float_ok src.
 Proof. exact parse_lazy_eq. Qed.
 Print Assumptions C04_parse_lazy_eq.
+
+(* whitespace between tokens is irrelevant: same lexemes, different runs of
+   whitespace (each lexeme delimited in both texts) -> same kinds and values *)
+Theorem C04_lex_ws_irrelevant : forall plus src1 src2,
+  ws_variant true plus src1 src2 ->
+  exists ts1 e1 a1 ts2 e2 a2,
+    lex_all plus src1 = (ts1, FEnd e1 a1) /\ lex_all plus src2 = (ts2, FEnd e2 a2) /\
+    map kv ts1 = map kv ts2.
+Proof. exact lex_ws_irrelevant. Qed.
+Print Assumptions C04_lex_ws_irrelevant.
